@@ -1,0 +1,61 @@
+//go:build verif
+
+package tq
+
+// VerifStepObject describes one object of a batch handed to VerifBatchStep.
+type VerifStepObject struct {
+	Name, Path, Oid string
+	Size            int64
+	Missing         bool
+	Retries         int // retries already counted against the object
+}
+
+// VerifStepResult is what one run of enqueueAndCollectRetriesFor left behind.
+type VerifStepResult struct {
+	Next        []string       // OIDs returned for another round
+	Returned    error          // the error it returned (the collector forwards it to the error channel)
+	WaitCounter int            // q.wait's counter afterwards
+	RetryCounts map[string]int // retry counter per OID afterwards
+}
+
+// VerifBatchStep registers the objects with the queue the way Add does
+// (remember: one wait count each), sets their retry counters, runs one
+// enqueueAndCollectRetriesFor over them on the caller's goroutine and
+// forwards a returned error to the error channel as collectBatches does.
+// The caller finishes with VerifRelease and Wait.
+func VerifBatchStep(q *TransferQueue, objs []VerifStepObject) VerifStepResult {
+	b := q.makeBatch()
+	for _, o := range objs {
+		t := &objectTuple{Name: o.Name, Path: o.Path, Oid: o.Oid, Size: o.Size, Missing: o.Missing}
+		q.remember(t)
+		q.rc.cmu.Lock()
+		q.rc.count[o.Oid] = o.Retries
+		q.rc.cmu.Unlock()
+		b = append(b, t)
+	}
+	next, err := q.enqueueAndCollectRetriesFor(b)
+	if err != nil {
+		q.errorc <- err
+	}
+	res := VerifStepResult{Returned: err, RetryCounts: map[string]int{}}
+	for _, t := range next {
+		res.Next = append(res.Next, t.Oid)
+	}
+	q.wait.mu.Lock()
+	res.WaitCounter = q.wait.counter
+	q.wait.mu.Unlock()
+	q.rc.cmu.Lock()
+	for k, v := range q.rc.count {
+		res.RetryCounts[k] = v
+	}
+	q.rc.cmu.Unlock()
+	return res
+}
+
+// VerifRelease gives up n outstanding wait counts (objects a step returned
+// for another round that the caller will not run) so that Wait can return.
+func VerifRelease(q *TransferQueue, n int) {
+	for i := 0; i < n; i++ {
+		q.wait.Done()
+	}
+}
